@@ -1381,7 +1381,22 @@ func (rw *rewriter) callExpr(n *ast.CallExpr) ast.Expr {
 					fatal("%s: sync.RWMutex.%s is not modelled", rw.pos(n), se.Sel.Name)
 				}
 			}
-			for _, other := range []string{"Cond", "Once", "Map", "Pool"} {
+			if ok, ptr := namedIs(recvT, "sync", "Pool"); ok {
+				recv := rw.addr(se.X, ptr)
+				switch se.Sel.Name {
+				case "Get":
+					rw.st.Mutex++
+					return rw.call("PoolGet", recv)
+				case "Put":
+					rw.st.Mutex++
+					return rw.call("PoolPut", recv, rw.expr(n.Args[0]))
+				}
+			}
+			if ok, ptr := namedIs(recvT, "sync", "Once"); ok && se.Sel.Name == "Do" {
+				rw.st.Mutex++
+				return rw.call("OnceDo", rw.addr(se.X, ptr), rw.expr(n.Args[0]))
+			}
+			for _, other := range []string{"Cond", "Map"} {
 				if ok, _ := namedIs(recvT, "sync", other); ok {
 					fatal("%s: sync.%s is not modelled", rw.pos(n), other)
 				}
